@@ -42,6 +42,8 @@ MULS = (2, 0.5, 1)                              # n*f (n == 1 is the plain copy 
 ADDS = ("H", "Fe[56]{3+}", "self")              # g of f+g / f+=g: a natural element, an isotope ion, f itself
 COPIES = [("none", None)] + [(k, d) for k in ("kw_d", "kw_n") for d in DENS]
 DERIVED = ("mul", "add", "iadd", "copy")
+# spellings that are results of formula arithmetic: the density they start with is not judged
+ARITHMETIC = ("scaled-formula", "sum-of-formulas", "extended-formula", "copied-arithmetic-result")
 RULE = dict(mul="scale", add="sum", iadd="extend", copy="copy")
 REL = 1e-9
 
@@ -66,7 +68,16 @@ META = dict(
           "derived formula and, again, the operand are judged before any merging of equal states.  The dict roots of a "
           "composition all receive ONE caller-owned mapping object, which must come back unaltered.  In states that "
           "contain a derivation in their history the substitutions are restricted to sources that are present and "
-          "portions {0.25, 1}.  Non-trivial = reached by at least one assignment "
+          "portions {0.25, 1}.  STRUCTURAL SPELLINGS: every composition (or a multiple of it) is also written as a "
+          "parenthesised group, nested groups, with a leading count, with its own count, as a repeated / '+'-joined "
+          "fragment, as a flat / repeated / nested (count, fragment) list or tuple, as a mapping, as the atom object, as "
+          "formula(formula(..)), and as the arithmetic results n*formula(..), g+g, g+h, 2*(g+g), (g+g)+g, f+=f, f+=g, "
+          "formula(2*g), formula(g+g) (from a string and from a sequence) - 50 to 57 spellings - each with no density "
+          "and with every way of giving one that the spelling admits (attribute; keywords for strings and sequences; "
+          "'@' tags for strings); the root is judged like any other (a CONSTRUCTED one-atom formula defaults to the "
+          "atom's density however it is written; the density an arithmetic result starts with is taken as served), then all 6 "
+          "assignments and every substitution with a present source (10 targets x portions {0.25, 1}) are executed on "
+          "it.  Non-trivial = reached by at least one assignment "
           "of a new value or one substitution whose source is present with portion > 0.  Volumes: all 23 packing "
           "spellings in every state of depth < bound, volume() alone in the deepest states; the lattice grid (4 lengths, 4 angles, every subset of "
           "b, c, alpha, beta, gamma given, 3 call spellings) once per composition."),
@@ -80,7 +91,10 @@ META = dict(
         "neutral element / isotope masses, element densities and covalent radii are read from the library (C06, C20); "
         "the electron mass from periodictable.constants",
         "'that atom's density' of a one-atom formula is atom.density as served by the library",
-        "the density that n*f, f+g, f+=g and formula(f) start with is not judged (the statement is silent): the value "
+        "a formula is a one-atom formula when its composition holds one atom, however the constructor was given it "
+        "(string in any spelling, sequence, mapping, atom, formula(formula(..)))",
+        "the density that n*f, f+g, f+=g and formula(f) start with is not judged, also when the result holds one atom "
+        "(the statement is silent: (g+g).density is None for every pair of operands): the value "
         "served by the library (None or a positive number) is taken as the density of the derived state; judged are its "
         "volume estimate, its natural density / density ratio, the two keywords of formula(f, ...), and everything that "
         "follows from later events",
@@ -249,6 +263,146 @@ class Graph(object):
         self._calls = None
         self._dict = self._dict_snap = None
 
+    # ---- structural spellings of the composition
+    def spellings(self):
+        """[(class, kind, payload, factor)]: other ways of writing factor x the composition.  kind 'str': a formula
+        string; 'obj': a Python expression for a (count, fragment) sequence or mapping over the atoms A[i] of the
+        entries; 'code': statements that derive f from other formulas."""
+        T = self.text
+        ent = self.entries
+        seq = ", ".join("(%r, A[%d])" % (c, i) for i, (t, c) in enumerate(ent))
+        out = [("group", "str", "(%s)" % T, 1), ("group", "str", "(%s)2" % T, 2), ("group", "str", "((%s)2)3" % T, 6),
+               ("leading-count", "str", "2%s" % T, 2), ("leading-count", "str", "0.5%s" % T, 0.5),
+               ("leading-count", "str", "2 %s" % T, 2),
+               ("repeated", "str", "%s%s" % (T, T), 2), ("repeated", "str", "%s %s" % (T, T), 2),
+               ("repeated", "str", "%s+%s" % (T, T), 2), ("repeated", "str", "%s + %s" % (T, T), 2),
+               ("repeated", "str", "2%s 3%s" % (T, T), 5), ("repeated", "str", "%s 2%s" % (T, T), 3),
+               ("repeated", "str", "%s (%s)2" % (T, T), 3)]
+        if len(ent) == 1 and ent[0][1] == 1:
+            out += [("own-count", "str", "%s2" % T, 2), ("own-count", "str", "%s0.5" % T, 0.5),
+                    ("leading-count", "str", "2%s2" % T, 4), ("group", "str", "(%s2)3" % T, 6),
+                    ("repeated", "str", "%s2%s0.5" % (T, T), 2.5), ("repeated", "str", "%s %s2" % (T, T), 3),
+                    ("atom", "obj", "A[0]", 1)]
+        out += [("sequence", "obj", "[%s]" % seq, 1), ("sequence", "obj", "(%s,)" % seq, 1),
+                ("sequence", "obj", "[%s, %s]" % (seq, seq), 2), ("sequence", "obj", "[(2, [%s])]" % seq, 2),
+                ("sequence", "obj", "((2, ((1, (%s,)),)),)" % seq, 2), ("sequence", "obj", "[(3, [(2, [%s])])]" % seq, 6),
+                ("sequence", "obj", "[(1, [%s]), (2, (%s,))]" % (seq, seq), 3)]
+        if len(set(t for t, _ in ent)) == len(ent):
+            out.append(("mapping", "obj", "{%s}" % ", ".join("A[%d]: %r" % (i, 3 * c) for i, (t, c) in enumerate(ent)), 3))
+        for src, tag in (("formula(%r)" % T, "string"), ("formula([%s])" % seq, "sequence")):
+            out += [("scaled-formula", "code", "f = 2 * %s" % src, 2), ("scaled-formula", "code", "f = 0.5 * %s" % src, 0.5),
+                    ("scaled-formula", "code", "f = 1 * %s" % src, 1),
+                    ("sum-of-formulas", "code", "g = %s; f = g + g" % src, 2),
+                    ("sum-of-formulas", "code", "g = %s; h = %s; f = g + h" % (src, src), 2),
+                    ("sum-of-formulas", "code", "g = %s; f = 2 * (g + g)" % src, 4),
+                    ("sum-of-formulas", "code", "g = %s; f = (g + g) + g" % src, 3),
+                    ("extended-formula", "code", "f = %s; f += f" % src, 2),
+                    ("extended-formula", "code", "f = %s; f += %s" % (src, src), 2),
+                    ("copied-formula", "code", "f = formula(%s)" % src, 1),
+                    ("copied-arithmetic-result", "code", "f = formula(2 * %s)" % src, 2),
+                    ("copied-arithmetic-result", "code", "g = %s; f = formula(g + g)" % src, 2)]
+        out.append(("scaled-formula", "code", "f = 2 * formula(%r)" % ("(%s)2" % T), 4))
+        return out
+
+    def spell_code(self, form):
+        dk, (klass, kind, payload, factor), d = form[0][6:], form[1], form[2]
+        kw = dict(kw_d=", density=%r" % (d,), kw_n=", natural_density=%r" % (d,)).get(dk, "")
+        if kind == "str":
+            tag = dict(tag_d="@%s", tag_i="@%si", tag_n="@%sn").get(dk)
+            code = "f = formula(%r%s)" % (payload + (tag % (ctext(d) or "1") if tag else ""), kw)
+        elif kind == "obj":
+            code = "f = formula(%s%s)" % (payload, kw)
+        else:
+            code = payload
+        if dk == "attr_d":
+            code += "; f.density = %r" % (d,)
+        elif dk == "attr_n":
+            code += "; f.natural_density = %r" % (d,)
+        return code
+
+    def spelled_forms(self):
+        out = []
+        for sp in self.spellings():
+            kinds = ["none", "attr_d", "attr_n"]
+            if sp[1] in ("str", "obj"):
+                kinds += ["kw_d", "kw_n"]
+            if sp[1] == "str":
+                kinds += ["tag_d", "tag_i", "tag_n"]
+            for dk in kinds:
+                out.append(["spell:" + dk, list(sp), None if dk == "none" else 5 if dk.endswith("_n") else 0.5])
+        return out
+
+    def spelled_rule(self, form, one):
+        dk, klass = form[0][6:], form[1][0]
+        if dk == "none":
+            return "default-density:%s:%s" % ("one-atom" if one else "several-atoms", klass)
+        return "construct:%s:%s" % (dk.replace("_", "-"), klass)
+
+    def spelled_unit(self, form, history=None):
+        """One spelling of (a multiple of) the composition, with one way of giving the density: the root state is
+        judged like any other (a one-atom formula defaults to the atom's density however it is written), then
+        every assignment and every substitution whose source is present is executed on it (the structure is
+        nested, repeated or shared between formulas).  history: replay exactly these events instead."""
+        E, acc = self.E, self.acc
+        dk, factor = form[0][6:], form[1][3]
+        comp = dict((t, c * factor) for t, c in self.comp0.items())
+        one = len(R.nonzero(comp)) == 1
+        rule = self.spelled_rule(form, one)
+        acc.evaluations += 1
+        try:
+            f = self.root(form)
+        except Exception as e:
+            self.viol(rule + ":raises", form, (), "a formula", "%s: %s" % (type(e).__name__, e))
+            return
+        rho = self.root_rho(form)
+        judged = one or dk != "none"
+        arithmetic = dk == "none" and form[1][0] in ARITHMETIC
+        if arithmetic:
+            # the density an arithmetic result starts with is what the library says (the statement is silent: the
+            # default of a one-atom formula is about how a formula is constructed, not about what a sum carries)
+            judged = False
+        if not self.check_state(f, comp, rho, rule, form, (), rho_judged=judged,
+                                ratio_dependent_density=dk in ("kw_n", "attr_n", "tag_n")):
+            return
+        acc.count("spelled_roots")
+        acc.outcome("spelled:%s:%s" % (form[1][0], dk))
+        if arithmetic:
+            try:
+                rho = f.density
+            except Exception as e:
+                self.viol(rule + ":density-raises", form, (), "a density or None", "%s: %s" % (type(e).__name__, e))
+                return
+            if rho is not None and not (isinstance(rho, (int, float)) and 0 < rho < float("inf")):
+                acc.outcome("spelled:density-not-a-positive-number(not judged)")
+                return
+            acc.outcome("spelled:arithmetic-result:%s(not judged)" % ("density-unknown" if rho is None else "density-served"))
+            if not self.check_state(f, comp, rho, rule, form, ()):      # natural density / density ratio of ITS composition
+                return
+        elif not judged:
+            return
+        st = State(f, comp, rho, (), False)
+        if history is not None:
+            for ev in history:
+                st = self.step(st, tuple(ev), form)
+                if st is None:
+                    return
+            self.check_packing(st, form, True)
+            return
+        acc.states += 1
+        if not self.check_packing(st, form, dk == "none"):
+            return
+        evs = [("setd", d) for d in DENS] + [("setn", d) for d in DENS]
+        for s_ in TOKS:
+            if comp.get(s_, 0) != 0:
+                evs += [("rep", s_, t_, p) for t_ in TOKS if t_ != s_ for p in (0.25, 1)]
+        for ev in evs:
+            new = self.step(st, ev, form, True)
+            if new is not None:
+                acc.states += 1
+                if new.nontrivial:
+                    acc.nontrivial += 1
+                self.check_packing(new, form, False)
+
     # ---- building
     def compound(self, how):
         E = self.E
@@ -278,6 +432,10 @@ class Graph(object):
         """form = [kind, how, d]; returns the real formula."""
         kind, how, d = form
         F = self.E.formula
+        if kind.startswith("spell:"):
+            ns = dict(formula=F, pt=self.E.pt, A=[self.E.atom[t] for t, _ in self.entries])
+            exec(self.spell_code(form), ns)
+            return ns["f"]
         if kind == "none":
             return F(self.compound(how))
         if kind == "kw_d":
@@ -294,6 +452,8 @@ class Graph(object):
 
     def root_code(self, form):
         kind, how, d = form
+        if kind.startswith("spell:"):
+            return "A = [%s]\n%s" % (", ".join(self.E.pyname(t) for t, _ in self.entries), self.spell_code(form))
         c = self.compound_code(how)
         if kind == "none":
             return "f = formula(%s)" % c
@@ -309,6 +469,8 @@ class Graph(object):
 
     def root_rho(self, form):
         kind, how, d = form
+        if kind.startswith("spell:"):
+            kind = kind[6:]
         if kind == "none":
             nz = R.nonzero(self.comp0)
             return self.E.adens[list(nz)[0]] if len(nz) == 1 else None
@@ -802,6 +964,9 @@ class Graph(object):
                 acc.outcome("root:" + form[0])
                 if how == "str":
                     roots.append((form, State(f, comp0, rho, (), False)))
+        # step 4b: the composition (or a multiple of it) written in every other structural spelling
+        for form in self.spelled_forms():
+            self.spelled_unit(form)
         # lattice grid (independent of the state by the statement; run on the plain root)
         self.check_lattice(f0, base)          # a wrong cell volume does not break a density state
         # step 5: breadth-first exploration
@@ -875,6 +1040,9 @@ def replay(ctx, case, signature=None):
     entries = [(t, c) for t, c in case["comp"]]
     g = Graph(E, entries, ctx.acc, "quick")
     form = case["root"]
+    if form[0].startswith("spell:"):
+        g.spelled_unit(form, history=case["history"])
+        return
     comp0 = dict(g.comp0)
     f = g.root(form)
     rule = {"none": "default-density:" + ("one-atom" if len(R.nonzero(comp0)) == 1 else "several-atoms"),
